@@ -311,7 +311,10 @@ unsafe fn drop_cycle<T>(cycle: HashMap<Link<T>, usize>) {
         //
         // This object continues to be referenced outside the cycle in another
         // part of the graph.
-        ptr.is_dead()
+        //
+        // A node that has adopted itself is a participant under both its
+        // forward and its loopback link. Release it only once.
+        matches!(ptr.kind(), Kind::Forward) && ptr.is_dead()
     });
 
     for ptr in unreachable_cycle_participants {
